@@ -3,6 +3,7 @@ known findings, violation reporting.  Run with /venv/bin/python, PYTHONPATH=/rep
 import fcntl, hashlib, json, os, random, re, subprocess, sys, time, warnings
 
 ROOT = os.path.dirname(os.path.dirname(os.path.abspath(__file__)))
+OUT = os.environ.get("VERIF_OUT", ROOT)     # development only: mutation runs write evidence/replays elsewhere
 COQ = os.path.join(ROOT, "coq")
 FPMODEL = os.path.join(COQ, "driver", "fpmodel")
 REPO = os.environ.get("VERIF_REPO", "/repo")
@@ -262,7 +263,7 @@ class Ctx:
         if sum(1 for v in self.violations if v["concrete"] == concrete) >= (8 if concrete else 4):
             self.count("suppressed_reports", "concrete" if concrete else "correspondence")
             return
-        d = os.path.join(ROOT, "replays", self.pid)
+        d = os.path.join(OUT, "replays", self.pid)
         os.makedirs(d, exist_ok=True)
         body = jsonable({"property": self.pid, "what": what, "concrete_failing_input": concrete, "key": key, "replay": replay,
                          "seed": self.seed, "tier": self.tier})
@@ -297,8 +298,8 @@ class Ctx:
         ev = {"property_id": self.pid, "tier": self.tier, "seed": self.seed, "level": level, "coverage": cov,
               "assumptions": assumptions or [], "wall_s": round(time.time() - self.t0, 2),
               "violations": len(self.violations)}
-        os.makedirs(os.path.join(ROOT, "evidence"), exist_ok=True)
-        json.dump(ev, open(os.path.join(ROOT, "evidence", self.pid + ".json"), "w"), indent=1, default=str)
+        os.makedirs(os.path.join(OUT, "evidence"), exist_ok=True)
+        json.dump(ev, open(os.path.join(OUT, "evidence", self.pid + ".json"), "w"), indent=1, default=str)
         for key, what in self.known_hits.items():
             print(f"KNOWN-FINDING: property={self.pid} {key}: {what}")
         have_concrete = any(v["concrete"] for v in self.violations)
